@@ -533,7 +533,7 @@ func RunOpts(srcDir, dstDir string, rewrite bool) (*Descriptor, error) {
 	var hb bytes.Buffer
 	hb.WriteString("// Code generated by the verification instrumenter. DO NOT EDIT.\n\n")
 	hb.WriteString("// Package zz_simhook carries the scheduler hook of the deterministic simulation.\n")
-	hb.WriteString("package zz_simhook\n\nimport (\n\t\"reflect\"\n\t\"sync\"\n\t\"time\"\n\t\"unsafe\"\n)\n\n")
+	hb.WriteString("package zz_simhook\n\nimport (\n\t\"os\"\n\t\"reflect\"\n\t\"sync\"\n\t\"time\"\n\t\"unsafe\"\n)\n\n")
 	hb.WriteString(hookLockSrc)
 	hb.WriteString("// Hook is called before every statement of the instrumented module when non-nil.\n")
 	hb.WriteString("var Hook func(site int)\n\n")
@@ -698,9 +698,24 @@ func tryFuncOf(p interface{}, read bool) func() bool {
 	return nil
 }
 
-// SimNow is the simulated clock in nanoseconds since the Unix epoch (0: the real clock is read).
-// It is a plain variable written by whichever simulated task holds the token.
-var SimNow int64 = 1767225600e9 // 2026-01-01T00:00:00Z from the first instruction of the process: package initialisers read it too
+// The simulated clock is the real clock plus ClockOffset (nanoseconds, never negative, never decreasing): it is never
+// behind any real time that reaches the module by another route (package initialisers, tickers, context deadlines,
+// stamps made by a dependency), so an age computed across the two is never negative; the harness moves it forward
+// in jumps.  ClockOffset is a plain variable written by whichever simulated task holds the token.
+var ClockOffset = initialClockOffset()
+
+// initialClockOffset: SIM_CLOCK_OFFSET (seconds) lets a worker process start on another day than its siblings; package
+// initialisers of the module see it too.
+func initialClockOffset() int64 {
+	var n int64
+	for _, c := range os.Getenv("SIM_CLOCK_OFFSET") {
+		if c < '0' || c > '9' {
+			return 0
+		}
+		n = n*10 + int64(c-'0')
+	}
+	return n * 1e9
+}
 
 // ClockReads counts reads of the simulated clock.
 var ClockReads uint64
@@ -709,11 +724,11 @@ var ClockReads uint64
 //
 //go:norace
 func Now() time.Time {
-	if SimNow == 0 {
+	ClockReads++
+	if ClockOffset == 0 {
 		return time.Now()
 	}
-	ClockReads++
-	return time.Unix(0, SimNow)
+	return time.Now().Add(time.Duration(ClockOffset))
 }
 
 // Since stands in for time.Since.
@@ -726,12 +741,11 @@ func Since(t time.Time) time.Duration { return Now().Sub(t) }
 //go:norace
 func Until(t time.Time) time.Duration { return t.Sub(Now()) }
 
-// Sleep stands in for time.Sleep: simulated time passes, and the other tasks get a chance to run.
-//
-//go:norace
+// Sleep stands in for time.Sleep: for a simulated task simulated time passes and the other tasks get a chance to
+// run; any other goroutine sleeps for real.
 func Sleep(d time.Duration) {
-	if SimNow == 0 || SleepFunc == nil || !SleepFunc(d) {
-		time.Sleep(d) // no simulation, or a goroutine the simulator does not own: the real clock
+	if SleepFunc == nil || !SleepFunc(d) {
+		time.Sleep(d)
 	}
 }
 
